@@ -21,7 +21,7 @@ class MgrCase:
     def coq(c):
         # an invalid isolation rule has threshold 0, so all invalid isolation rules of a resource are equal rules: one class
         def key_of(r):
-            return 0 if (c["family"] == 3 and r[2] % 5 == 0) else r[2]
+            return 0 if (c["family"] >= 3 and r[2] % 5 == 0) else r[2]
         pool = "; ".join("mkRule %d %d %d %s %d" % (r[0], r[1], key_of(r), "true" if (r[2] % 5 != 0 and r[1] != 0) else "false", r[2] % 2)
                          for r in c["pool"])
 
@@ -59,7 +59,7 @@ class MgrCase:
 
 
 def gen_mgr(rng, idx, family=None):
-    fam = family if family is not None else rng.pick([0, 0, 1, 2, 3])
+    fam = family if family is not None else rng.pick([0, 0, 1, 2, 3, 4])
     nres = rng.pick([2, 2, 3])
     pool = []
     rid = 0
@@ -71,7 +71,7 @@ def gen_mgr(rng, idx, family=None):
             if rng.chance(0.2):                       # the same rule under another id
                 rid += 1
                 pool.append([rid, res, k])
-    if rng.chance(0.15):
+    if rng.chance(0.15) and fam != 4:
         rid += 1
         pool.append([rid, 0, rng.pick(keys)])         # a rule for the empty resource name
     n = len(pool)
@@ -80,6 +80,11 @@ def gen_mgr(rng, idx, family=None):
         x = rng.random()
         if x < 0.22:
             ixs = rng.sample(range(n), rng.randint(0, min(n, 6)))
+            ops.append(["L", ixs])
+        elif x < 0.44 and fam == 4:
+            ixs = rng.sample(range(n), rng.randint(0, min(n, 5)))
+            if ixs and rng.chance(0.5):
+                ixs = ixs + [rng.pick(ixs)] if rng.chance(0.3) else ixs[::-1]      # same rules, other order / one twice
             ops.append(["L", ixs])
         elif x < 0.44:
             res = rng.pick(list(range(1, nres + 1)) + ([0] if rng.chance(0.3) else []))
@@ -92,11 +97,12 @@ def gen_mgr(rng, idx, family=None):
             ops.append(["P", rng.randrange(n)])
         elif x < 0.83:
             ops.append(["C"])
-        elif x < 0.9:
+        elif x < 0.9 and fam != 4:
             ops.append(["K", rng.randint(1, nres)])
         # readers after every mutation
         ops.append(["G"])
-        for res in range(1, nres + 1):
-            ops.append(["Q", res])
-            ops.append(["E", res])
+        if fam != 4:
+            for res in range(1, nres + 1):
+                ops.append(["Q", res])
+                ops.append(["E", res])
     return {"tag": "%d" % idx, "family": fam, "pool": pool, "nres": nres, "ops": ops}
